@@ -31,7 +31,14 @@ def runTimeoutOp (inp out : Json) : Json :=
     if !okV then some { prop := "C19", code := if want == "alt" then "late_answer_not_alternative" else "timely_answer_altered",
                         detail := s!"step {i}: expected exactly [{want}] with its metadata, got {vals} / usage {(outs.getD i Json.null |> fun o => jstr (jget o "usage"))}" }
     else if !okT then some { prop := "C19", code := "not_within_d_plus_margin", detail := s!"step {i}: {elapsed} ms for d = {d} ms" }
-    else none)
+    else none) ++
+    -- the abandoned computation must not rewrite the caller's environment
+    (if !jbool inp "envProbe" then [] else
+      (rows.filterMap (fun (i, (_, o)) =>
+        let saw := jstr (jget o "altSaw")
+        let caller := jstr (jget o "callerSees")
+        if (saw == "" || saw == "caller") && caller == "caller" then none
+        else some { prop := "C19", code := "caller_environment_rewritten", detail := s!"step {i}: the alternative read LANG={saw}, the caller's Context holds LANG={caller}" })).take 1)
   Json.mkObj [("same", Json.bool same), ("diff", Json.str (if same then "" else s!"{verdicts.map (fun (i, w, v, _, _, _) => (i, w, v))}")),
               ("fails", Json.arr (fails.map afailJson).toArray),
               ("feat", Json.mkObj [("nested", Json.bool nested), ("inBatch", Json.bool inBatch), ("steps", Json.num steps.length)])]
